@@ -16,9 +16,9 @@ var ctxDerivers = map[string]string{
 	"context.WithCancel":   "WithCancel",
 	"context.WithTimeout":  "WithTimeout",
 	"context.WithDeadline": "WithDeadline",
-	"google.golang.org/grpc/metadata.NewIncomingContext":            "NewIncomingContext",
-	"google.golang.org/grpc/metadata.AppendToOutgoingContext":       "AppendToOutgoingContext",
-	"google.golang.org/grpc.NewContextWithServerTransportStream":    "NewContextWithServerTransportStream",
+	"google.golang.org/grpc/metadata.NewIncomingContext":         "NewIncomingContext",
+	"google.golang.org/grpc/metadata.AppendToOutgoingContext":    "AppendToOutgoingContext",
+	"google.golang.org/grpc.NewContextWithServerTransportStream": "NewContextWithServerTransportStream",
 }
 
 type ctxStep struct {
